@@ -1,10 +1,15 @@
-(* Extract.v — extraction of the executable models to OCaml (ExtrOcamlBasic only;
+(* Extract.v — (append `From … Require` lines and root lines; the command ends with the lone `.` line)
+ extraction of the executable models to OCaml (ExtrOcamlBasic only;
    N/Z/positive/nat stay Coq datatypes; no Extract Constant). Run from the output dir. *)
 From Coq Require Import Extraction ExtrOcamlBasic.
 From KV Require Import Bytes WalCodec Memtable Engine.
 From KV Require Import ReadOnly.
 From KV Require Import ApiView.
+From KV Require Import LockDiscipline.
+From KV.gen Require Locks.
 Extraction Language OCaml.
+(* Coq's String module (identifiers of the C07 lock table) must not shadow OCaml's: it is emitted as String0 *)
+Extraction Blacklist String.
 Set Extraction Output Directory ".".
 Separate Extraction
   Bytes.crc32 Bytes.bcmp Bytes.le Bytes.unle
@@ -17,4 +22,6 @@ Separate Extraction
   Engine.init Engine.put Engine.del Engine.apply_batch Engine.tx_commit Engine.get Engine.flush
   Engine.reopen Engine.run Engine.buffer_ops
   ReadOnly.start ReadOnly.step_client ReadOnly.step_repl ReadOnly.node_get ReadOnly.tx_get
-  ReadOnly.node_scan ReadOnly.node_info ReadOnly.rw_open ReadOnly.any_open ApiView.api_view.
+  ReadOnly.node_scan ReadOnly.node_info ReadOnly.rw_open ReadOnly.any_open ApiView.api_view
+  LockDiscipline.protectedb LockDiscipline.flagged_rows LockDiscipline.acyclicb Locks.gen_accesses Locks.gen_order
+.
